@@ -445,7 +445,15 @@ func operandCensus(ctx *core.Ctx, idx int, res *core.Result, g *gen.G) {
 	host := []string{"\tuse(%s)\n", "\tv := %s\n\tuse(v)\n", "\tif cond(%s) {\n\t}\n", "\treturn %s\n"}[r.Intn(4)]
 	var srcs, wants []string
 	var kinds, fillers []string
-	for _, fl := range exprKindFillers {
+	all := exprKindFillers
+	switch pos {
+	case "«x»(1)", "«x»()", "[]«x»(nil)", "«x».f", "«x»[0]", "«x».(T)", "«x»[1:]":
+		// types that end in a function type without results take the text behind them for a result list; they are bound
+		// only where a type can reasonably stand in the way of a conversion, a method expression or an index
+		all = append(append([]struct{ kind, text string }{}, all...), []struct{ kind, text string }{
+			{"FuncType", "func()"}, {"ArrayType", "[]func()"}, {"MapType", "map[K][]func()"}, {"ChanType", "chan func(int)"}}...)
+	}
+	for _, fl := range all {
 		in := "package p\n\nfunc f() {\n" + fmt.Sprintf(host, "tgtPos("+fl.text+")") + "}\n"
 		if !gen.Parses(in) {
 			continue
@@ -521,7 +529,7 @@ func operandCensus(ctx *core.Ctx, idx int, res *core.Result, g *gen.G) {
 			return
 		}
 		if !ref.Equal(got.Tree, exp.Tree) {
-			dump(i, "wrong: "+strings.Join(strings.Fields(strings.SplitN(run.Out, "{\n", 2)[1]), " "))
+			dump(i, "wrong: "+strings.Join(strings.Fields(run.Out), " "))
 			res.Violate("C03/wrong-rewrite/operand-census", fmt.Sprintf("position %q with x = %s: %s", pos, kinds[i], ref.FirstDiff(got.Tree, exp.Tree, "")), rep)
 			continue
 		}
